@@ -30,6 +30,9 @@ def joinBError (rhs : List (Option Nat)) (B : Table) : Option EngErr :=
 /-- width of the LEFT JOIN null record: the longest B record -/
 def maxWidth (B : Table) : Nat := B.foldl (fun m r => max m r.length) 0
 
+/-- … and at least the number of columns of the join header, when there is one -/
+def nullWidth (js : JoinSpec) (B : Table) : Nat := max (maxWidth B) js.nullWidth
+
 /-- the environments one A record expands to (C04): every key-equal B record in B order;
 INNER drops a partner-less record, LEFT keeps it once with every b-field None, STRICT LEFT fails
 unless there is exactly one partner -/
@@ -42,7 +45,7 @@ def expandRecord (q : SemQuery) (B : Table) (nr : Nat) (recA : Row) : Except Eng
     match js.kind with
     | .inner => .ok (ps.map (fun p => { nr := nr, a := recA, bnr := some p.1, b := some p.2 }))
     | .left =>
-      if ps = [] then .ok [{ nr := nr, a := recA, bnr := none, b := some (List.replicate (maxWidth B) Val.none) }]
+      if ps = [] then .ok [{ nr := nr, a := recA, bnr := none, b := some (List.replicate (nullWidth js B) Val.none) }]
       else .ok (ps.map (fun p => { nr := nr, a := recA, bnr := some p.1, b := some p.2 }))
     | .strictLeft =>
       if ps.length = 1 then .ok (ps.map (fun p => { nr := nr, a := recA, bnr := some p.1, b := some p.2 }))
